@@ -8,6 +8,7 @@ import (
 	"crypto/x509"
 	"encoding/base64"
 	"fmt"
+	"html"
 	"html/template"
 	"io"
 	"math/rand"
@@ -159,13 +160,51 @@ func genSession(r *rand.Rand) mSession {
 	return s
 }
 
+// genSessionDistinct: every optional field set at once, to pairwise different values, with each pair of
+// fallback-related fields (principal name / mail, ...) in one of: both, only the first, only the second, neither
+func genSessionDistinct(r *rand.Rand) mSession {
+	u := func(tag string) string { return fmt.Sprintf("%s-%06x", tag, r.Intn(1<<24)) }
+	s := mSession{Create: time.Date(2015, 12, 1, 1, 0, 0, 0, time.UTC).Add(time.Duration(r.Intn(3600000)) * time.Millisecond),
+		Index: u("index"), NameID: u("nameid"), NameIDFormat: "urn:oasis:names:tc:SAML:1.1:nameid-format:unspecified", SubjectID: u("subject"),
+		UserName: u("user"), Email: u("mail") + "@example.com", CommonName: u("cn"), Surname: u("sn"), GivenName: u("given"),
+		ScopedAff: u("aff") + "@example.com", EPPN: u("eppn") + "@example.com", Groups: []string{u("group1"), u("group2")},
+		Custom: []mAttribute{{Friendly: u("cfriendly"), Name: u("cname"), Format: "urn:oasis:names:tc:SAML:2.0:attrname-format:basic",
+			Values: []mAttrValue{{Type: "xs:string", Value: u("cvalue")}}}}}
+	switch r.Intn(4) {
+	case 1:
+		s.Email = ""
+	case 2:
+		s.EPPN = ""
+	case 3:
+		s.Email, s.EPPN = "", ""
+	}
+	switch r.Intn(4) {
+	case 1:
+		s.UserName = ""
+	case 2:
+		s.CommonName, s.GivenName = "", ""
+	case 3:
+		s.Surname, s.SubjectID = "", ""
+	}
+	return s
+}
+
 func (s mSession) toSAML() *saml.Session {
 	out := &saml.Session{ID: "sess", CreateTime: s.Create, Index: s.Index, NameID: s.NameID, NameIDFormat: s.NameIDFormat, SubjectID: s.SubjectID,
 		Groups: s.Groups, UserName: s.UserName, UserEmail: s.Email, UserCommonName: s.CommonName, UserSurname: s.Surname, UserGivenName: s.GivenName,
 		UserScopedAffiliation: s.ScopedAff, EduPersonPrincipalName: s.EPPN}
+	if s.EmptyNotNil { // empty but non-nil slices: must behave exactly like nil ones
+		if len(out.Groups) == 0 {
+			out.Groups = []string{}
+		}
+		out.CustomAttributes = []saml.Attribute{}
+	}
 	for _, a := range s.Custom {
 		at := saml.Attribute{FriendlyName: a.Friendly, Name: a.Name, NameFormat: a.Format}
 		for _, v := range a.Values {
+			if s.EmptyNotNil && at.Values == nil {
+				at.Values = []saml.AttributeValue{}
+			}
 			av := saml.AttributeValue{Type: v.Type, Value: v.Value}
 			if v.NameID != nil {
 				av.NameID = &saml.NameID{Format: v.NameID.Format, NameQualifier: v.NameID.NameQualifier, SPNameQualifier: v.NameID.SPNameQualifier, Value: v.NameID.Value}
@@ -214,12 +253,47 @@ func genMeta06(r *rand.Rand, entity string, kds func(*rand.Rand) []mKeyDesc) *mM
 			e := genEndpoint(r)
 			e.Binding = pick(r, []string{bPost, bPost, bPost, bPost, bPost, bRedirect, bArtifact})
 			e.Location = fmt.Sprintf("https://sp.example.com/acs/%d/%d", di, r.Intn(3))
+			if r.Intn(4) == 0 { // registered strings that are not fixed points of url.Parse(...).String()
+				e.Location = fmt.Sprintf(pick(r, c06OddLocations), di, r.Intn(3))
+			}
 			e.Index = ei + r.Intn(2)
 			d.ACS = append(d.ACS, e)
 		}
 		md.Descs = append(md.Descs, d)
 	}
 	return md
+}
+
+// Locations that url.Parse(...).String() would rewrite (upper-case scheme, empty fragment, characters that
+// get percent-encoded, non-ASCII); the IdP must hand out the registered string byte for byte
+var c06OddLocations = []string{"HTTPS://sp.example.com/acs/%d/%d", "https://sp.example.com/acs/%d/%d#", "https://sp.example.com/a|b/%d/%d", "https://sp.example.com/acs/%d/\u00e9%d",
+	"https://sp.example.com/a b/%d/%d", "https://sp.example.com/a^b/%d/%d", "Https://SP.example.com/acs/%d/%d#", "https://sp.example.com/acs/%d/%d?q=a|b#"}
+
+var tmplAction = template.Must(template.New("a").Parse(`<form method="post" action="{{.}}">`))
+
+// templateForm: how html/template writes a URL into the action attribute (read back the way the harness reads forms)
+func templateForm(u string) string {
+	var b strings.Builder
+	if err := tmplAction.Execute(&b, u); err != nil {
+		return u
+	}
+	if m := actionRe.FindStringSubmatch(b.String()); m != nil {
+		return html.UnescapeString(m[1])
+	}
+	return u
+}
+
+// registeredAction maps the action read from the form back to the registered Location it is the
+// template rendering of (html/template percent-encodes some characters; C14 is about that layer).
+func registeredAction(md *mMeta, action string) string {
+	for _, d := range md.Descs {
+		for _, e := range d.ACS {
+			if e.Location != action && templateForm(e.Location) == action {
+				return e.Location
+			}
+		}
+	}
+	return action
 }
 
 func simpleKDs(r *rand.Rand) []mKeyDesc {
@@ -500,7 +574,7 @@ func c06Emit(c *Ctx, g *Group, in c06Input, key map[string]string) {
 			specOK = Bptr(false)
 			obsJSON["unreadable"] = res.form.Err.Error()
 		} else {
-			obs = fmt.Sprintf("(O6Form %s %s %s)", emit.Str(res.form.Action), res.form.Resp.term(), emit.Str(res.form.Relay))
+			obs = fmt.Sprintf("(O6Form %s %s %s)", emit.Str(registeredAction(in.md, res.form.Action)), res.form.Resp.term(), emit.Str(res.form.Relay))
 			obsJSON["form_action"], obsJSON["relay_state"], obsJSON["response_xml"] = res.form.Action, res.form.Relay, string(res.form.XML)
 			if res.form.Resp.Enc != nil {
 				obsJSON["decrypted_assertion_xml"] = string(res.form.Resp.Enc.PlainXML)
@@ -538,7 +612,12 @@ func c06Emit(c *Ctx, g *Group, in c06Input, key map[string]string) {
 
 func genInput06(r *rand.Rand, kds func(*rand.Rand) []mKeyDesc) (c06Input, map[string]string) {
 	key := map[string]string{}
-	in := c06Input{cfg: genCfg06(r), sess: genSession(r), now: pick(r, c05Nows), addr: pick(r, []string{"192.0.2.1:1234", "[2001:db8::1]:443", ""}),
+	sess := genSession(r)
+	if r.Intn(4) == 0 {
+		sess = genSessionDistinct(r)
+	}
+	sess.EmptyNotNil = r.Intn(3) == 0
+	in := c06Input{cfg: genCfg06(r), sess: sess, now: pick(r, c05Nows), addr: pick(r, []string{"192.0.2.1:1234", "[2001:db8::1]:443", ""}),
 		relay: pick(r, []string{"", "relay-1", "a&b=c", "https://sp.example.com/app?x=1"}), method: pick(r, []string{"GET", "POST"})}
 	entity := pick(r, []string{"https://sp.example.com/saml/metadata", "https://sp.example.com/saml/metadata", "urn:sp:example", "https://sp.example.com/entity?a=b"})
 	in.md = genMeta06(r, entity, kds)
